@@ -15,7 +15,10 @@ class Module(object):
     def __init__(self, rel, src):
         self.rel = rel
         self.src = src
-        self.tree = ast.parse(src, filename=rel)
+        import warnings
+        with warnings.catch_warnings():
+            warnings.simplefilter("ignore")          # the sembuilder DSL ('op'(a, b)) makes CPython warn at parse time
+            self.tree = ast.parse(src, filename=rel)
         self.funcs = {}      # qualname -> FunctionDef
         self.classes = {}    # name -> ClassDef
         self.assigns = {}    # module-level name -> value node (last binding)
